@@ -23,6 +23,7 @@ import sys
 import ast
 import collections
 import functools
+import threading
 import types
 
 from sigtools import _signatures, _util
@@ -36,6 +37,9 @@ except ImportError:
 
 class UnknownForwards(ValueError):
     pass
+
+
+_being_analysed = threading.local()
 
 
 class UnresolvableName(ValueError):
@@ -455,6 +459,10 @@ class cleanup_functools_wrapper(object):
             setattr(self.func, attr, val)
 
 
+def _known_arg_key(value):
+    return None if isinstance(value, Unknown) else id(value)
+
+
 def autoforwards_function(func, args, kwargs):
     with cleanup_functools_wrapper(func):
         try:
@@ -468,7 +476,19 @@ def autoforwards_function(func, args, kwargs):
     func_ast = _util.get_ast(func)
     if func_ast is None:
         raise UnknownForwards
-    return autoforwards_ast(func, func_ast, sig, args, kwargs)
+    # a function that (directly or not) forwards to itself would be analysed
+    # forever: its inner occurrence is not refined any further
+    stack = _being_analysed.__dict__.setdefault('funcs', [])
+    key = (id(func),
+           tuple(_known_arg_key(a) for a in args),
+           tuple(sorted((k, _known_arg_key(v)) for k, v in kwargs.items())))
+    if key in stack or sum(1 for k in stack if k[0] == key[0]) >= 16:
+        raise UnknownForwards
+    stack.append(key)
+    try:
+        return autoforwards_ast(func, func_ast, sig, args, kwargs)
+    finally:
+        stack.pop()
 
 
 def autoforwards_hint(func, args, kwargs):
